@@ -41,15 +41,19 @@ DEAD_DESERIALISER = "action_obj.ActionGroup.from_json_obj"
 def check(run, repo, tier):
   w = World(repo)
   writes = collect_writes(w)
-  r1_parallel(run, w, writes)
-  r2_owners(run, w, writes)
-  r3_indirection(run, w)
-  r4_contexts(run, w)
+  analysis, cand = _analyse(w, writes)
+  r1_parallel(run, w, writes, analysis)
+  r2_owners(run, w, writes, analysis, cand)
+  r3_indirection(run, w, analysis)
+  r4_contexts(run, w, analysis)
 
 
 # -------------------------------------------------------------------------- write classification
 def _list_attr(fn, e):
-  """'stored' / 'direct' when expression e denotes that list of an ActionGroup, else None."""
+  """'stored' / 'direct' when expression e denotes that list of an ActionGroup (directly or through
+  a local that stands for it), else None."""
+  if isinstance(e, ast.Name):
+    e = H.deref(fn, e)
   if not (isinstance(e, ast.Attribute) and e.attr in ("stored", "direct")):
     return None
   d = fn.aliases.dotted(e) or ""
@@ -80,6 +84,8 @@ def collect_writes(w):
         if isinstance(s, ast.Assign):
           for t in s.targets:
             base = t.value if isinstance(t, ast.Subscript) else t
+            if base is t and not isinstance(t, ast.Attribute):
+              continue        # binding a local is no write to the list
             which = _list_attr(fn, base)
             if which:
               ws.append((which, "assign" if base is t else "setitem", n, s.value))
@@ -126,59 +132,431 @@ def _times_len(e, of=None):
   return None
 
 
+# ---------------------------------------------------------------- counting what is added
+# How many elements a function adds to ActionGroup.stored and to ActionGroup.direct is counted
+# symbolically along the CFG. Quantities are linear expressions {symbol: coefficient} (symbol 1 is
+# the constant term); an integer local is (a, off) meaning a * len(stored) + off, so that
+# `before = len(stored)` ... `len(stored) - before` evaluates to what was added in between however
+# the two statements are spelled or named. Calls of same-class helpers that touch the lists are
+# interpreted in place with their parameters bound, so an extracted helper counts like its body.
+TOP = "TOP"
+GROW_KINDS = ("append", "extend", "iadd", "escape")
+
+
+def _ladd(a, b, k=1):
+  out = dict(a)
+  for s, c in b.items():
+    v = out.get(s, 0) + k * c
+    if v:
+      out[s] = v
+    else:
+      out.pop(s, None)
+  return out
+
+
+def _lshow(l):
+  if l == TOP:
+    return "different on different paths"
+  if not l:
+    return "0"
+  parts = []
+  for s, c in sorted(l.items(), key=lambda kv: str(kv[0])):
+    nm = "1" if s == 1 else ("len(%s)" % s[1] if isinstance(s, tuple) and s[0] == "len" else
+                             ("len(stored)" if s == "S" else "<added by %s>" % s[1]
+                              if isinstance(s, tuple) else str(s)))
+    parts.append(("%+d" % c) + ("" if s == 1 else "*" + nm))
+  return " ".join(parts)
+
+
+class _St(object):
+  __slots__ = ("delta", "grow", "env")
+
+  def __init__(self, delta=None, grow=None, env=None):
+    self.delta = {} if delta is None else delta     # added to stored minus added to direct
+    self.grow = grow                                # added to stored (None: unknown)
+    self.env = {} if env is None else env           # integer locals: name -> (a, off)
+
+  def copy(self):
+    return _St(self.delta if self.delta == TOP else dict(self.delta),
+               None if self.grow is None else dict(self.grow),
+               dict((k, (a, dict(o))) for k, (a, o) in self.env.items()))
+
+  def key(self):
+    f = lambda l: l if l == TOP or l is None else tuple(sorted((str(k), v) for k, v in l.items()))
+    return (f(self.delta), f(self.grow),
+            tuple(sorted((k, a, f(o)) for k, (a, o) in self.env.items())))
+
+
+def _join(a, b):
+  delta = a.delta if a.delta != TOP and b.delta != TOP and a.delta == b.delta else TOP
+  grow = a.grow if a.grow is not None and a.grow == b.grow else None
+  env = dict((k, v) for k, v in a.env.items() if k in b.env and b.env[k] == v)
+  return _St(delta, grow, env)
+
+
+class _Flow(object):
+  def __init__(self, w, helpers):
+    self.w = w
+    self.helpers = helpers        # qualnames of same-class helpers that touch the lists
+    self.events = {}              # (qualname, id(ast node), which, kind) -> event tuple
+    self.conflicts = []
+    self._du = {}
+
+  # -- recording
+  def _event(self, fn, n, which, kind, detail, flag=None):
+    self.events.setdefault((fn.qualname, id(detail), which, kind),
+                           (fn, n, which, kind, detail, flag))
+
+  def _stable(self, fn, name):
+    """A list-valued local that is bound at most once and never mutated in fn."""
+    du = self._du.get(fn.qualname)
+    if du is None:
+      du = self._du[fn.qualname] = DefUse(fn)
+    return len(du.rebinders(name)) <= 1 and not du.muts.get(name)
+
+  # -- evaluation of integer expressions
+  def _eval(self, fn, e, st):
+    if isinstance(e, ast.Constant) and isinstance(e.value, int) and not isinstance(e.value, bool):
+      return (0, {1: e.value} if e.value else {})
+    if isinstance(e, ast.Name):
+      return st.env.get(e.id)
+    if isinstance(e, ast.Call) and dotted(e.func) == "len" and len(e.args) == 1 and not e.keywords:
+      a = e.args[0]
+      which = _list_attr(fn, a)
+      if which == "stored":
+        return (1, {})
+      if which is None and isinstance(a, ast.Name) and self._stable(fn, a.id):
+        return (0, {("len", a.id, fn.qualname): 1})
+      return None
+    if isinstance(e, ast.BinOp) and isinstance(e.op, (ast.Add, ast.Sub)):
+      l, r = self._eval(fn, e.left, st), self._eval(fn, e.right, st)
+      if l is None or r is None:
+        return None
+      k = 1 if isinstance(e.op, ast.Add) else -1
+      return (l[0] + k * r[0], _ladd(l[1], r[1], k))
+    if isinstance(e, ast.UnaryOp) and isinstance(e.op, ast.USub):
+      v = self._eval(fn, e.operand, st)
+      return None if v is None else (-v[0], _ladd({}, v[1], -1))
+    return None
+
+  def _len_of(self, fn, e, st, site):
+    """(count, flag) of the list expression e that is appended."""
+    tl = _times_len(e)
+    if tl:
+      v = self._eval(fn, tl[1], st)
+      return (v if v is not None else (0, {("U", short(site, 40), id(site)): 1}), tl[0])
+    if isinstance(e, ast.List) and not any(isinstance(x, ast.Starred) for x in e.elts):
+      flags = {x.value if isinstance(x, ast.Constant) else "?" for x in e.elts}
+      return ((0, {1: len(e.elts)} if e.elts else {}), flags.pop() if len(flags) == 1 else "?")
+    if isinstance(e, ast.Call) and dotted(e.func) in ("list", "tuple") and len(e.args) == 1:
+      e = e.args[0]
+    if isinstance(e, ast.Name) and self._stable(fn, e.id):
+      return ((0, {("len", e.id, fn.qualname): 1}), "?")
+    return ((0, {("U", short(site, 40), id(site)): 1}), "?")
+
+  def _grow(self, st, which, val):
+    a, off = val
+    q = _ladd(off, {"S": a}) if a else off
+    if which == "stored":
+      if st.delta != TOP:
+        st.delta = _ladd(st.delta, q)
+      self._shift(st, q)
+    else:
+      if st.delta != TOP:
+        st.delta = _ladd(st.delta, q, -1)
+
+  def _shift(self, st, q):
+    """stored grew by q: locals holding a multiple of len(stored) now lag behind by that much."""
+    if q is None:
+      st.grow = None
+      for k in [k for k, (a, o) in st.env.items() if a]:
+        del st.env[k]
+      return
+    if st.grow is not None:
+      st.grow = _ladd(st.grow, q)
+    for k, (a, o) in list(st.env.items()):
+      if a:
+        st.env[k] = (a, _ladd(o, q, -a))
+
+  # -- one CFG node
+  def transfer(self, fn, n, st, stack):
+    for c in H.post_calls(n.exprs):
+      f = c.func
+      if isinstance(f, ast.Attribute):
+        which = _list_attr(fn, f.value)
+        if which:
+          m = f.attr
+          if m == "append" and len(c.args) == 1:
+            self._grow(st, which, (0, {1: 1}))
+            self._event(fn, n, which, "append", c, c.args[0])
+          elif m == "extend" and len(c.args) == 1:
+            cnt, flag = self._len_of(fn, c.args[0], st, c)
+            self._grow(st, which, cnt)
+            self._event(fn, n, which, "extend", c, flag)
+          elif m in ("index", "count", "copy", "__len__", "__getitem__", "__iter__",
+                     "__contains__"):
+            pass
+          else:
+            raise AnalysisError("%s: unsupported write %s" % (fn.qualname, short(c)))
+          continue
+      if dotted(f) == "len":
+        continue
+      esc = [(_list_attr(fn, a), a) for a in list(c.args) + [k.value for k in c.keywords]]
+      esc = [x for x in esc if x[0]]
+      if esc:
+        for which, a in esc:
+          if which == "direct":
+            raise AnalysisError("%s: ActionGroup.direct is handed to %s; cannot follow"
+                                % (fn.qualname, short(c)))
+          self._grow(st, "stored", (0, {("U", short(c, 40), id(c)): 1}))
+          self._event(fn, n, "stored", "escape", c)
+        continue
+      fi = H.self_method(self.w, fn, c)
+      if fi is not None and fi.qualname in self.helpers:
+        self._inline(fn, c, fi, st, stack)
+    s = n.stmt
+    if s is None:
+      return
+    if n.kind == "stmt":
+      if isinstance(s, ast.AugAssign):
+        which = _list_attr(fn, s.target)
+        if which:
+          if not isinstance(s.op, ast.Add):
+            raise AnalysisError("%s: unsupported augmented write %s" % (fn.qualname, short(s)))
+          cnt, flag = self._len_of(fn, s.value, st, s)
+          self._grow(st, which, cnt)
+          self._event(fn, n, which, "iadd", s, flag)
+        elif isinstance(s.target, ast.Name):
+          v = None
+          if isinstance(s.op, (ast.Add, ast.Sub)):
+            v = self._eval(fn, ast.BinOp(left=ast.Name(id=s.target.id, ctx=ast.Load()), op=s.op,
+                                         right=s.value), st)
+          self._bind(st, s.target.id, v)
+      elif isinstance(s, (ast.Assign, ast.AnnAssign)):
+        if s.value is not None:
+          val = self._eval(fn, s.value, st)
+          for t in (s.targets if isinstance(s, ast.Assign) else [s.target]):
+            base = t.value if isinstance(t, ast.Subscript) else t
+            which = _list_attr(fn, base) if (isinstance(base, ast.Attribute) or base is not t) \
+                else None
+            if which:
+              self._event(fn, n, which, "assign" if base is t else "setitem", s, s.value)
+            elif isinstance(t, ast.Name):
+              self._bind(st, t.id, val)
+            else:
+              for x in ast.walk(t):
+                if isinstance(x, ast.Name) and isinstance(x.ctx, ast.Store):
+                  self._bind(st, x.id, None)
+      elif isinstance(s, ast.Delete):
+        for t in s.targets:
+          base = t.value if isinstance(t, ast.Subscript) else t
+          which = _list_attr(fn, base)
+          if which:
+            self._event(fn, n, which, "del", t)
+    elif n.kind in ("for", "with"):
+      from ..astutil import stmt_defs
+      for nm in stmt_defs(s):
+        self._bind(st, nm, None)
+    for e in n.exprs:
+      for x in (walk_no_nested(e) if e is not None else ()):
+        if isinstance(x, (ast.comprehension, ast.NamedExpr)):
+          for y in ast.walk(x.target):
+            if isinstance(y, ast.Name):
+              self._bind(st, y.id, None)
+
+  def _bind(self, st, name, val):
+    if val is None:
+      st.env.pop(name, None)
+    else:
+      st.env[name] = (val[0], dict(val[1]))
+
+  def _inline(self, fn, call, fi, st, stack):
+    if fi.qualname in stack or len(stack) >= 4:
+      # a cycle of helpers: assumed to add the same number to both lists (each is checked alone)
+      self._shift(st, None)
+      return
+    callee = self.w.fn_of(fi)
+    env = {}
+    for p in fi.params()[1:]:
+      try:
+        a = H.arg_of(call, fi, p)
+      except AnalysisError:
+        a = None
+      v = self._eval(fn, a, st) if a is not None else None
+      if v is not None:
+        env[p] = (v[0], dict(v[1]))
+    ex = self.run(callee, _St(st.delta, {}, env), stack + [fn.qualname])
+    if ex is None:
+      return
+    st.delta = ex.delta
+    self._shift(st, ex.grow)
+
+  # -- a whole function
+  def run(self, fn, st0, stack=()):
+    cfg = fn.cfg
+    stack = list(stack)
+    IN = {cfg.entry.id: st0}
+    OUT = {}
+    work = [cfg.entry.id]
+    steps = 0
+    while work:
+      steps += 1
+      if steps > 20000:
+        raise AnalysisError("%s: counting of stored/direct growth does not converge" % fn.qualname)
+      nid = work.pop(0)
+      st = IN[nid].copy()
+      self.transfer(fn, cfg.nodes[nid], st, stack)
+      if nid in OUT and OUT[nid].key() == st.key():
+        continue
+      OUT[nid] = st
+      for t in cfg.succ[nid]:
+        if t == cfg.raise_exit.id:
+          continue
+        if t not in IN:
+          IN[t] = st.copy()
+          work.append(t)
+        else:
+          new = _join(IN[t], st)
+          if new.delta == TOP and IN[t].delta != TOP and st.delta != TOP:
+            self.conflicts.append("%s: paths meeting at line %d have added (stored minus direct) "
+                                  "%s and %s" % (fn.qualname, cfg.nodes[t].lineno or 0,
+                                                 _lshow(IN[t].delta), _lshow(st.delta)))
+          if new.key() != IN[t].key():
+            IN[t] = new
+            if t not in work:
+              work.append(t)
+    return IN.get(cfg.exit.id)
+
+
+def _referrers(w, fi):
+  """[(FuncInfo of the referring function, is a `self.<name>(...)` call in the same class)] for
+  every mention of method fi's name that can denote fi."""
+  out = []
+  for g in w.repo.all_functions():
+    if g is fi:
+      # recursion is no outside use
+      pass
+    for x in ast.walk(g.node):
+      if isinstance(x, ast.Attribute) and x.attr == fi.name:
+        own = g.cls is not None and w.repo.find_method(g.cls, fi.name) is fi
+        recv_self = isinstance(x.value, ast.Name) and x.value.id == "self"
+        if recv_self and g.cls is not None and not own:
+          continue          # another class's own method of the same name
+        called = any(isinstance(c, ast.Call) and c.func is x for c in ast.walk(g.node))
+        # nested defs are listed by all_functions too; attribute found in the outer walk as well
+        out.append((g, bool(own and recv_self and called)))
+  return out
+
+
+def _helper_closure(w, writes):
+  """Private same-class helpers whose writes count as their callers': functions outside OWNERS
+  that write the lists (or call such a helper) and are only ever used as `self.<name>(...)` from
+  OWNERS or other such helpers of the same class. Returns {qualname: reason it is NOT a helper
+  (None when it is)}."""
+  ua = set(f.qualname for f in w.useraction_methods().values())
+  cand = {}
+  todo = [q for q in writes if q not in OWNERS and q != DEAD_DESERIALISER]
+  refs = {}
+  while todo:
+    q = todo.pop()
+    if q in cand:
+      continue
+    fi = w.repo.funcs.get(q)
+    if fi is None or fi.cls is None or fi.parent is not None:
+      cand[q] = "not a method"
+      continue
+    if q in ua or fi.name.startswith("__"):
+      cand[q] = "a user action / special method can be called from anywhere"
+      continue
+    rs = [(g, ok) for (g, ok) in _referrers(w, fi) if g.qualname != q and
+          (g.parent is None or g.parent.qualname != q)]
+    refs[q] = rs
+    cand[q] = None
+    if not rs:
+      cand[q] = "nothing calls it"
+    for (g, ok) in rs:
+      if not ok:
+        cand[q] = "used outside a self.%s(...) call in %s" % (fi.name, g.qualname)
+      elif g.qualname not in OWNERS and g.qualname not in cand:
+        todo.append(g.qualname)
+  # callers must be owners or accepted helpers (fixpoint)
+  changed = True
+  while changed:
+    changed = False
+    for q, why in list(cand.items()):
+      if why is not None:
+        continue
+      for (g, ok) in refs.get(q, []):
+        gq = g.qualname
+        if gq in OWNERS or cand.get(gq, "x") is None:
+          continue
+        cand[q] = "called from %s, which is not an enumerated writer" % gq
+        changed = True
+        break
+  return cand
+
+
+def _analyse(w, writes):
+  """Per root function (enumerated owner, or any other function that writes the lists and is not
+  an accepted helper): (flow, exit state)."""
+  cand = _helper_closure(w, writes)
+  helpers = {q for q, why in cand.items() if why is None}
+  # owners called as self.<owner>() from another owner are interpreted in place as well
+  inl = helpers | {q for q in OWNERS if q in writes}
+  roots = sorted({q for q in writes if q not in helpers} |
+                 {q for q in OWNERS if w.repo.funcs.get(q) is not None})
+  out = {}
+  for q in roots:
+    fn = w.fn(q)
+    fl = _Flow(w, inl - {q})
+    ex = fl.run(fn, _St({}, {}, {}))
+    out[q] = (fl, ex)
+  return out, cand
+
+
 # ------------------------------------------------------------------------------------------ R1
-def r1_parallel(run, w, writes):
+def r1_parallel(run, w, writes, analysis):
   R1 = run.rule("C31-R1", "every function that grows or cuts ActionGroup.stored does the same to "
                 "ActionGroup.direct, by the same count, on every normal path", floor=7)
-  for q, ws in sorted(writes.items()):
+  for q, (fl, ex) in sorted(analysis.items()):
     fn = w.fn(q)
-    cfg = fn.cfg
-    st = [x for x in ws if x[0] == "stored"]
-    di = [x for x in ws if x[0] == "direct"]
-    for (_, kind, n, det) in st:
-      if kind == "append":
-        D = {m.id for (_, k2, m, d2) in di if k2 == "append"}
-        same_loops = lambda a, b: [s for (s, f) in H.guards_of(fn.node, a.stmt)
-                                   if isinstance(s, (ast.For, ast.While))] == \
-                                  [s for (s, f) in H.guards_of(fn.node, b.stmt)
-                                   if isinstance(s, (ast.For, ast.While))]
-        D = {d for d in D if same_loops(n, cfg.nodes[d])}
-        ok = bool(D) and (cfg.postdominated_by(n.id, D) or cfg.dominated_by(n.id, D))
-        run.ob(R1, q, short(det), "one flag is appended to direct for the one action appended "
-               "to stored, on every normal path", ok, fi=fn.fi, node=det,
-               witness=None if ok else cfg.describe_path(
-                 cfg.path(n.id, {cfg.exit.id}, removed=D, after=True)))
-      elif kind == "extend":
-        src = det.args[0] if det.args else None
-        ok = False
-        D = set()
-        for (_, k2, m, v) in di:
-          tl = _times_len(v) if k2 == "iadd" else (
-            _times_len(v.args[0]) if k2 == "extend" and v.args else None)
-          if tl and isinstance(tl[1], ast.Call) and dotted(tl[1].func) == "len" and \
-              len(tl[1].args) == 1 and src is not None and text(tl[1].args[0]) == text(src) and \
-              isinstance(src, ast.Name):
-            D.add(m.id)
-        ok = bool(D) and (cfg.postdominated_by(n.id, D) or cfg.dominated_by(n.id, D))
-        run.ob(R1, q, short(det), "direct grows by [flag] * len(<the same list>) whenever stored "
-               "is extended by that list", ok, fi=fn.fi, node=det)
-      elif kind == "escape":
-        ok, wit = _length_difference(fn, n, det, di)
-        run.ob(R1, q, short(det), "stored is handed to a function that may append to it; direct "
-               "then grows by exactly len(stored) after - len(stored) before", ok, witness=wit,
-               fi=fn.fi, node=det)
-      elif kind == "del":
-        low = det.slice.lower if isinstance(det, ast.Subscript) and \
-            isinstance(det.slice, ast.Slice) and det.slice.upper is None and \
-            det.slice.step is None else None
-        D = {m.id for (_, k2, m, d2) in di if k2 == "del" and isinstance(d2, ast.Subscript) and
-             isinstance(d2.slice, ast.Slice) and d2.slice.upper is None and
-             d2.slice.step is None and low is not None and d2.slice.lower is not None and
-             text(d2.slice.lower) == text(low)}
+    evs = sorted(fl.events.values(), key=lambda e: (e[0].qualname, getattr(e[4], "lineno", 0)))
+    st = [e for e in evs if e[2] == "stored"]
+    di = [e for e in evs if e[2] == "direct"]
+    balanced = ex is None or ex.delta == {}
+    wit = None
+    if not balanced:
+      wit = "; ".join(fl.conflicts[:2]) if ex.delta == TOP and fl.conflicts else \
+          "on return stored has grown by %s more than direct" % _lshow(ex.delta)
+    what = {"append": "one flag is appended to direct for the one action appended to stored, on "
+                      "every normal path",
+            "extend": "direct grows by as many flags as stored is extended by",
+            "iadd": "direct grows by as many flags as stored is extended by",
+            "escape": "stored is handed to a function that may append to it; direct then grows by "
+                      "exactly len(stored) after - len(stored) before"}
+    grew = [e for e in st if e[3] in GROW_KINDS]
+    for (efn, n, _w, kind, det, flag) in grew:
+      via = "" if efn.qualname == q else " [in %s]" % efn.qualname.split(".")[-1]
+      run.ob(R1, q, short(det) + via, what[kind], balanced, witness=wit, fi=efn.fi, node=det)
+    if not grew and [e for e in di if e[3] in GROW_KINDS]:
+      e = [e for e in di if e[3] in GROW_KINDS][0]
+      run.ob(R1, q, short(e[4]), "direct is not written where stored is not", balanced,
+             witness=wit, fi=e[0].fi, node=e[4])
+    # cuts: del stored[i:] is paired with del direct[i:] in the same function
+    for (efn, n, _w, kind, det, flag) in st:
+      cfg = efn.cfg
+      if kind == "del":
+        def open_slice(t):
+          return t.slice.lower if isinstance(t, ast.Subscript) and isinstance(t.slice, ast.Slice) \
+              and t.slice.upper is None and t.slice.step is None else None
+        low = open_slice(det)
+        D = {e[1].id for e in di if e[3] == "del" and e[0] is efn and low is not None and
+             open_slice(e[4]) is not None and
+             H.canon(efn, open_slice(e[4])) == H.canon(efn, low)}
         ok = bool(D) and (cfg.postdominated_by(n.id, D) or cfg.dominated_by(n.id, D))
         run.ob(R1, q, "del stored[%s:] / del direct[%s:]" % (text(low) if low else "?",
                                                             text(low) if low else "?"),
-               "both lists are cut at the same index", ok, fi=fn.fi, node=det)
+               "both lists are cut at the same index", ok, fi=efn.fi, node=det)
       elif kind == "assign":
         if q == DEAD_DESERIALISER:
           callers = [fi.qualname for fi in w.repo.all_functions()
@@ -186,19 +564,21 @@ def r1_parallel(run, w, writes):
                             for x in ast.walk(fi.node))]
           run.ob(R1, q, short(det), "named exception: this deserialiser sets stored without "
                  "direct, which is tolerable only while nothing in the engine calls it",
-                 not callers, witness="called from %s" % callers, fi=fn.fi, nontrivial=False)
+                 not callers, witness="called from %s" % callers, fi=efn.fi, nontrivial=False)
           continue
-        D = [d2 for (_, k2, m, d2) in di if k2 == "assign"]
-        ok = isinstance(det, ast.List) and not det.elts and len(D) == 1 and \
-            isinstance(D[0], ast.List) and not D[0].elts
+        empty = lambda v: (isinstance(v, ast.List) and not v.elts) or \
+            (isinstance(v, ast.Call) and dotted(v.func) == "list" and not v.args and not v.keywords)
+        D = [e for e in di if e[3] == "assign" and e[0] is efn]
+        ok = empty(flag) and len(D) == 1 and empty(D[0][5])
         run.ob(R1, q, "stored = []; direct = []", "both lists start empty together", ok,
-               fi=fn.fi, node=det)
-      else:
-        raise AnalysisError("%s: unsupported write to stored (%s)" % (q, kind))
-    # direct never grows without stored
-    if di and not st:
-      run.ob(R1, q, short(di[0][3]), "direct is not written where stored is not", False,
-             fi=fn.fi, node=di[0][2].stmt)
+               fi=efn.fi, node=det)
+      elif kind == "setitem":
+        raise AnalysisError("%s: unsupported write to stored (%s)" % (q, short(det)))
+    if [e for e in di if e[3] in ("del", "assign")] and not [e for e in st
+                                                             if e[3] in ("del", "assign")]:
+      e = [e for e in di if e[3] in ("del", "assign")][0]
+      run.ob(R1, q, short(e[4]), "direct is not cut or reset where stored is not", False,
+             fi=e[0].fi, node=e[4])
   # the reply bundle copies both lists in the same way
   fn = w.fn("acl.acl_read_split")
   p = fn.fi.params()[0]
@@ -207,83 +587,51 @@ def r1_parallel(run, w, writes):
     for which in ("stored", "direct"):
       if isinstance(c.func, ast.Attribute) and c.func.attr == "extend" and \
           isinstance(c.func.value, ast.Attribute) and c.func.value.attr == which and c.args and \
-          isinstance(c.args[0], ast.GeneratorExp) and len(c.args[0].generators) == 1:
+          isinstance(c.args[0], (ast.GeneratorExp, ast.ListComp)) and \
+          len(c.args[0].generators) == 1:
         g = c.args[0].generators[0]
-        shapes[which] = (text(g.iter) == "%s.%s" % (p, which), not g.ifs,
+        shapes[which] = (H.canon(fn, g.iter) == "%s.%s" % (p, which), not g.ifs,
                          isinstance(c.args[0].elt, ast.Tuple) and
                          len(c.args[0].elt.elts) == 2 and
                          text(c.args[0].elt.elts[1]) == text(g.target),
-                         text(c.args[0].elt.elts[0]) if isinstance(c.args[0].elt, ast.Tuple)
+                         H.canon(fn, c.args[0].elt.elts[0]) if isinstance(c.args[0].elt, ast.Tuple)
                          else None)
-  ok = set(shapes) == {"stored", "direct"} and all(s[0] and s[1] and s[2] for s in shapes.values()) \
+  if set(shapes) != {"stored", "direct"}:
+    raise AnalysisError("acl_read_split: bundle.stored.extend(...) / bundle.direct.extend(...) over "
+                        "the action group's lists not recognised")
+  ok = all(s[0] and s[1] and s[2] for s in shapes.values()) \
       and shapes["stored"][3] == shapes["direct"][3]
   run.ob(R1, fn.qualname, "bundle.stored.extend((0, a) for a in group.stored); "
          "bundle.direct.extend((0, f) for f in group.direct)", "the bundle sent out carries every "
          "stored action and every flag, unfiltered, in the same envelope", ok, fi=fn.fi)
   # check_sanity compares the two lengths and is run by apply_user_actions after the flush
   cs = w.fn("action_obj.ActionGroup.check_sanity")
-  ok = any(n.kind == "if" and isinstance(n.stmt.test, ast.Compare) and
-           isinstance(n.stmt.test.ops[0], ast.NotEq) and
-           {text(n.stmt.test.left), text(n.stmt.test.comparators[0])} ==
-           {"len(self.stored)", "len(self.direct)"} and
-           any(x.kind == "raise_stmt" and x.id in cs.cfg.reach_after({n.id}) for x in cs.cfg.nodes)
-           for n in cs.cfg.nodes)
+  from ..guards import establishing_edges
+  def mismatch(e):
+    return isinstance(e, ast.Compare) and len(e.ops) == 1 and \
+        {H.canon(cs, e.left), H.canon(cs, e.comparators[0])} == {"len(self.stored)",
+                                                                  "len(self.direct)"} and \
+        isinstance(e.ops[0], (ast.NotEq, ast.Eq))
+  ok = False
+  for pol in (True, False):
+    for (a, b) in establishing_edges(cs.cfg, lambda e: mismatch(e) and
+                                     isinstance(e.ops[0], ast.NotEq if pol else ast.Eq), pol):
+      r = cs.cfg.reach({b})
+      if any(cs.cfg.nodes[x].kind == "raise_stmt" for x in r) and cs.cfg.exit.id not in r:
+        ok = True
   run.ob(R1, cs.qualname, "if len(self.stored) != len(self.direct): raise",
          "a length mismatch is an error, not a silently misaligned reply", ok, fi=cs.fi,
          nontrivial=False)
 
 
-def _length_difference(fn, n, call, di):
-  """stored escapes into `call` at node n: before = len(stored) dominates, count = len(stored) -
-  before follows, and direct += [False] * count follows on every normal path."""
-  cfg = fn.cfg
-  recv = None
-  for a in list(call.args) + [k.value for k in call.keywords]:
-    if _list_attr(fn, a) == "stored":
-      recv = text(a)
-  lens = {}
-  for m in cfg.nodes:
-    if m.kind == "stmt" and isinstance(m.stmt, ast.Assign) and \
-        isinstance(m.stmt.targets[0], ast.Name) and text(m.stmt.value) == "len(%s)" % recv:
-      lens[m.stmt.targets[0].id] = m.id
-  for (_, k2, d, v) in di:
-    if k2 != "iadd":
-      continue
-    tl = _times_len(v)
-    if not tl:
-      continue
-    if isinstance(tl[1], ast.BinOp):          # the count written inline
-      cid, cv = d.id, tl[1]
-    elif isinstance(tl[1], ast.Name):
-      cdefs = [(m.id, m.stmt.value) for m in cfg.nodes if m.kind == "stmt" and
-               isinstance(m.stmt, ast.Assign) and isinstance(m.stmt.targets[0], ast.Name) and
-               m.stmt.targets[0].id == tl[1].id]
-      if len(cdefs) != 1:
-        continue
-      cid, cv = cdefs[0]
-    else:
-      continue
-    if not (isinstance(cv, ast.BinOp) and isinstance(cv.op, ast.Sub) and
-            text(cv.left) == "len(%s)" % recv and isinstance(cv.right, ast.Name) and
-            cv.right.id in lens):
-      continue
-    before = lens[cv.right.id]
-    ok = cfg.dominated_by(n.id, {before}) and n.id not in cfg.reach_after({n.id}) and \
-        cfg.dominated_by(cid, {n.id}) and cfg.dominated_by(d.id, {cid}) and \
-        cfg.postdominated_by(n.id, {d.id}) and \
-        len(E.local_defs(fn.node, cv.right.id)) == 1
-    if ok:
-      return True, None
-  return False, "no `before = len(stored)` ... `direct += [flag] * (len(stored) - before)` " \
-                "around the call"
-
-
 # ------------------------------------------------------------------------------------------ R2
-def r2_owners(run, w, writes):
+def r2_owners(run, w, writes, analysis, cand):
   R2 = run.rule("C31-R2", "ActionGroup.stored and .direct are written only by the enumerated "
                 "functions, and by the same ones", floor=12)
-  sw = {q for q, ws in writes.items() if any(x[0] == "stored" for x in ws)}
-  dw = {q for q, ws in writes.items() if any(x[0] == "direct" for x in ws)}
+  sw, dw = set(), set()
+  for q, (fl, ex) in analysis.items():
+    for e in fl.events.values():
+      (sw if e[2] == "stored" else dw).add(q)
   for q, ws in sorted(writes.items()):
     fn = w.fn(q)
     for which in ("stored", "direct"):
@@ -291,10 +639,16 @@ def r2_owners(run, w, writes):
       if not hits:
         continue
       ok = q in OWNERS or (q == DEAD_DESERIALISER and which == "stored")
+      what = "writer of %s is one of the enumerated owners" % which
+      wit = None
+      if not ok and q in cand:
+        ok = cand[q] is None
+        what = "writer of %s is an enumerated owner, or a private helper used only by them " \
+               "(its writes are then counted as theirs)" % which
+        wit = cand[q]
       run.ob(R2, q, "writes %s: %s" % (which, short(hits[0][3]) if isinstance(hits[0][3], ast.AST)
                                        else hits[0][1]),
-             "writer of %s is one of the enumerated owners" % which, ok, fi=fn.fi,
-             node=hits[0][2].stmt, nontrivial=False)
+             what, ok, witness=wit, fi=fn.fi, node=hits[0][2].stmt, nontrivial=False)
   run.ob(R2, AG, "writers(stored) == writers(direct)", "the two lists have the same writers "
          "(apart from the unused deserialiser)", sw - {DEAD_DESERIALISER} == dw,
          witness="stored only: %s; direct only: %s" % (sorted(sw - dw - {DEAD_DESERIALISER}),
@@ -305,7 +659,59 @@ def r2_owners(run, w, writes):
 
 
 # ------------------------------------------------------------------------------------------ R3
-def r3_indirection(run, w):
+def _flag_verdict(fn, e, direct_value):
+  """True when the flag expression is true exactly when the indirection level is DIRECT_ACTION
+  (the level only counts up from there), False when it is some other function of the level or a
+  constant, None when it cannot be interpreted."""
+  e = H.expand(fn, H.deref(fn, e))
+  is_level = lambda x: text(x) == "self._indirection_level"
+  is_direct = lambda x: text(x) == "DIRECT_ACTION" or (
+    isinstance(x, ast.Constant) and direct_value is not None and x.value == direct_value and
+    not isinstance(x.value, bool))
+  if isinstance(e, ast.Call) and dotted(e.func) == "bool" and len(e.args) == 1 and not e.keywords:
+    return _flag_verdict(fn, e.args[0], direct_value)
+  if isinstance(e, ast.UnaryOp) and isinstance(e.op, ast.Not):
+    if is_level(e.operand):
+      return True if direct_value == 0 else None
+    v = _flag_verdict(fn, e.operand, direct_value)
+    if v is True and isinstance(e.operand, ast.Compare):
+      return False
+    if v is False and isinstance(e.operand, ast.Compare) and len(e.operand.ops) == 1:
+      # not (level != DIRECT), not (level > DIRECT)
+      l, r = e.operand.left, e.operand.comparators[0]
+      op = e.operand.ops[0]
+      if is_level(r) and is_direct(l):
+        l, r = r, l
+        op = {ast.Lt: ast.Gt, ast.Gt: ast.Lt, ast.LtE: ast.GtE, ast.GtE: ast.LtE}.get(type(op),
+                                                                                     type(op))()
+      if is_level(l) and is_direct(r) and isinstance(op, (ast.NotEq, ast.Gt)):
+        return True
+      return False
+    return None if v is None else False
+  if isinstance(e, ast.IfExp) and isinstance(e.body, ast.Constant) and \
+      isinstance(e.orelse, ast.Constant):
+    if e.body.value is True and e.orelse.value is False:
+      return _flag_verdict(fn, e.test, direct_value)
+    if e.body.value is False and e.orelse.value is True:
+      return _flag_verdict(fn, ast.UnaryOp(op=ast.Not(), operand=e.test), direct_value)
+    return False
+  if isinstance(e, ast.Compare) and len(e.ops) == 1:
+    l, r, op = e.left, e.comparators[0], e.ops[0]
+    if is_level(r) and is_direct(l):
+      l, r = r, l
+      op = {ast.Lt: ast.Gt, ast.Gt: ast.Lt, ast.LtE: ast.GtE, ast.GtE: ast.LtE}.get(type(op),
+                                                                                   type(op))()
+    if is_level(l) and is_direct(r):
+      return isinstance(op, (ast.Eq, ast.LtE, ast.Is))
+    if any(is_level(x) for x in ast.walk(e)):
+      return False
+    return None
+  if isinstance(e, ast.Constant) or is_level(e):
+    return False
+  return None
+
+
+def r3_indirection(run, w, analysis):
   R3 = run.rule("C31-R3", "indirect_actions raises the level and lowers it on every path; the level "
                 "starts at DIRECT_ACTION; the gateway's flag is level == DIRECT_ACTION", floor=6)
   fn = w.fn("useractions.UserActions.indirect_actions")
@@ -366,22 +772,14 @@ def r3_indirection(run, w):
                node=x, nontrivial=False)
   # the gateway's flag
   gw = w.fn("useractions.UserActions._do_doc_action")
-  flags = [c for (n, c, nm) in gw.calls() if endswith(nm, "out_actions.direct.append")]
-  if len(flags) != 1 or len(flags[0].args) != 1:
+  flags = [ev for ev in analysis[gw.qualname][0].events.values()
+           if ev[2] == "direct" and ev[3] == "append"]
+  if len(flags) != 1:
     raise AnalysisError("_do_doc_action: direct.append(<flag>) not found")
-  e = flags[0].args[0]
-  verdict = None
-  if isinstance(e, ast.Compare) and len(e.ops) == 1:
-    sides = {text(e.left), text(e.comparators[0])}
-    if sides == {"self._indirection_level", "DIRECT_ACTION"}:
-      lvl_left = text(e.left) == "self._indirection_level"
-      op = e.ops[0]
-      if isinstance(op, ast.Eq) or (isinstance(op, ast.LtE) and lvl_left) or \
-          (isinstance(op, ast.GtE) and not lvl_left):
-        verdict = True
-      elif isinstance(op, (ast.NotEq, ast.Gt, ast.Lt, ast.GtE, ast.LtE)):
-        verdict = False
-  if verdict is None and not (isinstance(e, ast.Constant) or isinstance(e, ast.Compare)):
+  gfn = flags[0][0]            # the function the append is written in (the gateway or a helper)
+  e = H.deref(gfn, flags[0][5])
+  verdict = _flag_verdict(gfn, e, c0.value if isinstance(c0, ast.Constant) else None)
+  if verdict is None:
     raise AnalysisError("_do_doc_action: cannot interpret the direct flag %s" % short(e))
   run.ob(R3, gw.qualname, "direct.append(%s)" % short(e), "an action is direct exactly when no "
          "indirect_actions block is open", verdict is True, fi=gw.fi, node=e)
@@ -435,19 +833,44 @@ def _formula_functions(w):
   return out
 
 
-def r4_contexts(run, w):
+def _ua_sites(w, fnode, cls, module, ua_names, depth=2, stack=()):
+  """[(call, is it inside `with ...indirect_actions()`, function node it is written in)] for the
+  user-action calls made by function `fnode` itself or by the same-class / same-module helpers
+  it calls (a helper called inside the block counts as inside)."""
+  out = []
+  cls_q = cls.qualname if cls is not None else None
+  for c in calls_in(fnode.body):
+    if _is_user_action_call(w, c, cls_q, ua_names):
+      out.append((c, H.inside_with(fnode, c, "indirect_actions"), fnode))
+      continue
+    if depth <= 0:
+      continue
+    fi = None
+    if isinstance(c.func, ast.Attribute) and isinstance(c.func.value, ast.Name) and \
+        c.func.value.id == "self" and cls is not None:
+      fi = w.repo.find_method(cls, c.func.attr)
+    elif isinstance(c.func, ast.Name):
+      fi = w.repo.funcs.get("%s.%s" % (module.name, c.func.id))
+    if fi is None or fi.node is fnode or fi.qualname in stack:
+      continue
+    sub = _ua_sites(w, fi.node, fi.cls, fi.module, ua_names, depth - 1, stack + (fi.qualname,))
+    if sub:
+      here = H.inside_with(fnode, c, "indirect_actions")
+      out.extend((c2, ins or here, f2) for (c2, ins, f2) in sub)
+  return out
+
+
+def r4_contexts(run, w, analysis):
   R4 = run.rule("C31-R4", "user-action calls made from formula code, from apply_auto_removes and "
                 "from the empty-column conversion are lexically inside `with "
                 "...indirect_actions()`; calc flushes append False", floor=7)
   ua_names = set(w.useraction_methods())
   n_formula_sites = 0
   for (mod, q, fdef) in _formula_functions(w):
-    for c in calls_in(fdef.body):
-      if _is_user_action_call(w, c, None, ua_names):
-        n_formula_sites += 1
-        run.ob(R4, q, short(c), "a user action run by formula code is indirect",
-               H.inside_with(fdef, c, "indirect_actions"), node=c,
-               fi=_FakeFi(mod, fdef, q))
+    for (c, inside, where) in _ua_sites(w, fdef, None, mod, ua_names):
+      n_formula_sites += 1
+      run.ob(R4, q, short(c), "a user action run by formula code is indirect", inside, node=c,
+             fi=_FakeFi(mod, fdef, q))
   if n_formula_sites < 2:
     raise AnalysisError("formula code that runs user actions (_updateSummary) not found")
   for q, why in (("docmodel.DocModel.apply_auto_removes", "auto-removals are decided by formulas"),
@@ -455,20 +878,32 @@ def r4_contexts(run, w):
                   "converting an empty column while data is entered is not what the user asked "
                   "for")):
     fn = w.fn(q)
-    n = 0
-    for c in calls_in(fn.node.body):
-      if _is_user_action_call(w, c, fn.fi.cls.qualname, ua_names):
-        n += 1
-        run.ob(R4, q, short(c), "this user action is indirect (%s)" % why,
-               H.inside_with(fn.node, c, "indirect_actions"), fi=fn.fi, node=c)
-    if n == 0:
+    sites = _ua_sites(w, fn.node, fn.fi.cls, fn.fi.module, ua_names)
+    for (c, inside, where) in sites:
+      run.ob(R4, q, short(c), "this user action is indirect (%s)" % why, inside, fi=fn.fi,
+             node=c if where is fn.node else None)
+    if not sites:
       raise AnalysisError("%s: no user-action call found (mechanism moved?)" % q)
   # the conversion really is the ModifyColumn(isFormula=False) of the empty column
   fn = w.fn("useractions.UserActions._ensure_column_accepts_data")
-  conv = [c for (n, c, nm) in fn.calls() if nm == "self.ModifyColumn" and len(c.args) == 3 and
-          isinstance(c.args[2], ast.Dict) and
-          any(H.const_value(k) == (True, "isFormula") and H.const_value(v) == (True, False)
-              for k, v in zip(c.args[2].keys, c.args[2].values))]
+  mc = w.repo.func("useractions.UserActions.ModifyColumn")
+  conv = []
+  for (c, inside, where) in _ua_sites(w, fn.node, fn.fi.cls, fn.fi.module, ua_names):
+    if isinstance(c.func, ast.Attribute) and c.func.attr == "ModifyColumn":
+      try:
+        info = H.arg_of(c, mc, mc.params()[3])
+      except AnalysisError:
+        info = None
+      hf = [f for f in w.repo.all_functions() if f.node is where]
+      info = H.deref(w.fn_of(hf[0]), info) if hf and info is not None else info
+      if isinstance(info, ast.Dict) and \
+          any(k is not None and H.const_value(k) == (True, "isFormula") and
+              H.const_value(v) == (True, False) for k, v in zip(info.keys, info.values)):
+        conv.append(c)
+      elif isinstance(info, ast.Call) and dotted(info.func) == "dict" and \
+          any(k.arg == "isFormula" and H.const_value(k.value) == (True, False)
+              for k in info.keywords):
+        conv.append(c)
   run.ob(R4, fn.qualname, "self.ModifyColumn(table_id, col_id, {'isFormula': False})",
          "the empty-column conversion goes through the ModifyColumn user action", len(conv) >= 1,
          fi=fn.fi, nontrivial=False)
@@ -476,18 +911,9 @@ def r4_contexts(run, w):
   for q in ("action_obj.ActionGroup.flush_calc_changes",
             "action_obj.ActionGroup.flush_calc_changes_for_column"):
     fn = w.fn(q)
-    vals = []
-    for n in fn.cfg.nodes:
-      if n.kind == "stmt" and isinstance(n.stmt, ast.AugAssign) and \
-          _list_attr(fn, n.stmt.target) == "direct":
-        tl = _times_len(n.stmt.value)
-        vals.append(tl[0] if tl else "?")
-      for c in calls_in(n.exprs):
-        if isinstance(c.func, ast.Attribute) and c.func.attr in ("append", "extend") and \
-            _list_attr(fn, c.func.value) == "direct":
-          a = c.args[0] if c.args else None
-          tl = _times_len(a) if a is not None else None
-          vals.append(tl[0] if tl else (a.value if isinstance(a, ast.Constant) else "?"))
+    vals = [ev[5].value if isinstance(ev[5], ast.Constant) else ev[5]
+            for ev in analysis[q][0].events.values()
+            if ev[2] == "direct" and ev[3] in GROW_KINDS]
     run.ob(R4, q, "self.direct += [False] * count", "actions produced by recalculation are never "
            "direct", bool(vals) and all(v is False for v in vals), fi=fn.fi)
 
